@@ -39,7 +39,8 @@ ARender(toks, i, parentPrec, rightChild, style) ==     \* <<text, next>>
   IF t = "neg" THEN
      LET inner == toks[i + 1]
          s == ARender(toks, i + 1, 3, FALSE, style)
-     IN << "-" \o (IF APrec(inner) < 4 /\ style # "full" /\ s[1] # "" THEN s[1] ELSE s[1]), s[2] >>
+     \* (a negated negation is written with a bracket: -(-x))
+     IN << IF inner = "neg" THEN "-(" \o s[1] \o ")" ELSE "-" \o s[1], s[2] >>
   ELSE IF t \in BinOps THEN
      LET a == ARender(toks, i + 1, APrec(t), FALSE, style)
          b == ARender(toks, a[2], APrec(t), TRUE, style)
